@@ -34,13 +34,13 @@ enum ProbeId { P_item_by_file, P_item_by_env, P_item_by_argv, P_all_three_source
                P_word_needed_quoting, P_style_backslash, P_style_single, P_style_double, P_style_mixed,
                P_comment_or_empty_line, P_multi_value_in_file_line, P_override_file_argv, P_override_env_argv,
                P_read_returned_one_byte, P_file_via_flag, P_file_via_argument, P_env_default_name, P_env_named,
-               P_several_items_on_one_line, P_file_line_evaluated };
+               P_several_items_on_one_line, P_file_line_evaluated, P_nested_argument_file, P_env_names_argument_file };
 const char* const kProbeNames[] = { "item_delivered_by_file", "item_delivered_by_env", "item_delivered_by_argv",
                "all_three_sources_in_one_run", "both_runs_returned", "both_runs_threw", "word_needed_quoting",
                "style_backslash", "style_single_quotes", "style_double_quotes", "style_mixed", "comment_or_empty_line_skipped",
                "multi_value_words_in_file_line", "override_file_then_argv", "override_env_then_argv", "read_returned_one_byte",
                "file_via_program_name_flag", "file_via_argument", "env_default_name", "env_named", "several_items_on_one_line",
-               "file_line_evaluated" };
+               "file_line_evaluated", "argument_file_includes_another_file", "environment_variable_names_argument_file" };
 
 std::string upper( std::string s)
 {
@@ -88,6 +88,16 @@ public:
       plan[ "file_via"] = fvia[ cfg.below( 4)];
       plan[ "env_via"] = evia[ cfg.below( 3)];
       plan[ "noabbr"] = cfg.chance( 1, 5);
+      // an argument file may include another one; the environment variable may name the argument file
+      if (plan.gets( "file_via") != "none" && cfg.chance( 1, 3))
+      {
+         Json  nest = Json::object();
+         nest[ "start"] = static_cast< long long>( cfg.below( 4));
+         nest[ "count"] = static_cast< long long>( cfg.below( 4));
+         plan[ "nest"] = nest;
+      }
+      if (plan.gets( "file_via") == "arg" && plan.gets( "env_via") != "none" && cfg.chance( 1, 3))
+         plan[ "env_names_file"] = true;
       plan[ "final_newline"] = !fl.chance( 1, 3);
 
       // the arguments of this recipe (set-up on a scratch handler)
@@ -333,6 +343,25 @@ public:
          }
          lines.push_back( text);
       }
+      // nesting: some lines move into a second file that the first one includes
+      std::string  inner_text;
+      bool         nested = false;
+      const Json&  nest = plan.get( "nest");
+      const std::string  inner_path = "/simfs/cfg/inner.args";
+      if (nest.isObj() && file_via != "none" && !lines.empty())
+      {
+         size_t  start = static_cast< size_t>( std::max< long long>( 0, nest.geti( "start", 0)));
+         size_t  count = static_cast< size_t>( std::max< long long>( 0, nest.geti( "count", 0)));
+         if (start > lines.size()) start = lines.size();
+         if (start + count > lines.size()) count = lines.size() - start;
+         // the override line (always the last one) stays in the outer file, after the include
+         if (ov_active && ov.gets( "src") == "f" && start + count == lines.size() && count > 0) --count;
+         for (size_t l = start; l < start + count; ++l) inner_text += lines[ l] + "\n";
+         lines.erase( lines.begin() + static_cast< long>( start), lines.begin() + static_cast< long>( start + count));
+         lines.insert( lines.begin() + static_cast< long>( start), "--arg-file " + inner_path);
+         nested = true;
+         st.probe( P_nested_argument_file);
+      }
       const Json&  extra = plan.get( "extra_lines");
       for (size_t k = 0; k < extra.size(); ++k)
       {
@@ -376,6 +405,14 @@ public:
       }
       const std::string  env_name = (env_via == "named") ? "SIM_ARGS_VAR" : upper( prog);
       fs::envUnset( env_name);
+      const bool  env_names_file = plan.geti( "env_names_file", 0) != 0 && file_via == "arg" && env_via != "none";
+      if (env_names_file)
+      {
+         // evaluation order becomes: file (named by the variable), rest of the variable, command line
+         env_text = "--arg-file " + arg_file_path + (env_text.empty() ? "" : " " + env_text);
+         st.probe( P_env_names_argument_file);
+      }
+      if (nested) fs::putFile( inner_path, inner_text);
       if (env_via != "none" && !env_text.empty()) fs::envSet( env_name, env_text);
       if (env_via == "default") st.probe( P_env_default_name);
       if (env_via == "named") st.probe( P_env_named);
@@ -402,11 +439,11 @@ public:
       ycfg.recipe = &recipe;
       ycfg.flags = (noabbr ? Handler::hfNoAbbr : 0);
       if (file_via == "flag") ycfg.flags |= Handler::hfReadProgArg;
-      if (file_via == "arg") ycfg.arg_file_arg = true;
+      if (file_via == "arg" || nested) ycfg.arg_file_arg = true;
       if (env_via == "default") ycfg.flags |= Handler::hfEnvVarArgs;
       if (env_via == "named") { ycfg.named_env = true; ycfg.env_name = env_name; }
       ycfg.argv.push_back( argv0);
-      if (file_via == "arg") { ycfg.argv.push_back( "--arg-file"); ycfg.argv.push_back( arg_file_path); }
+      if (file_via == "arg" && !env_names_file) { ycfg.argv.push_back( "--arg-file"); ycfg.argv.push_back( arg_file_path); }
       for (auto const& w : wa) ycfg.argv.push_back( w);
       for (auto const& w : ov_second) ycfg.argv.push_back( w);
 
@@ -440,7 +477,8 @@ public:
       xcfg.flags = (noabbr ? Handler::hfNoAbbr : 0);
       xcfg.argv.push_back( argv0);
       std::vector< std::string>  first_words;   // the overridden first use is left out
-      if (file_via == "arg")
+      const bool  env_first = (file_via == "arg") && !env_names_file;
+      if (env_first)
       {
          for (auto const& w : we) xcfg.argv.push_back( w);
          for (auto const& w : wf) xcfg.argv.push_back( w);
@@ -453,7 +491,7 @@ public:
       {
          // the first use was appended to the environment words: take it out again
          const size_t  n1 = ov.get( "first").size();
-         const size_t  env_end = (file_via == "arg") ? 1 + we.size() : 1 + wf.size() + we.size();
+         const size_t  env_end = env_first ? 1 + we.size() : 1 + wf.size() + we.size();
          xcfg.argv.erase( xcfg.argv.begin() + static_cast< long>( env_end - n1), xcfg.argv.begin() + static_cast< long>( env_end));
       }
       for (auto const& w : wa) xcfg.argv.push_back( w);
